@@ -15,7 +15,7 @@ Entry(kind, k) ==
 DevTab(kind, n) == [k \in 1..n |-> Entry(kind, k)]
 
 Cfg(kind, ver, n, cached, resend) ==
-    [kind |-> kind, ver |-> ver, dev |-> DevTab(kind, n), cached |-> cached, resend |-> resend]
+    [kind |-> kind, ver |-> ver, dev |-> DevTab(kind, n), crc |-> <<17, 34, 51, 68>>, cached |-> cached, resend |-> resend]
 
 \* sizes 0..3, both kinds, both protocol generations, cache hit and miss, with and without retry
 ConfigsSmall == {Cfg(k, v, n, c, r) : k \in {"log", "param"}, v \in {1, 2}, n \in 0..3,
@@ -30,5 +30,7 @@ ConfigsBugSmall == {Cfg(k, v, n, FALSE, TRUE) : k \in {"log", "param"}, v \in {1
 ConfigsBug257 == {Cfg("log", 2, 257, FALSE, TRUE)}
 \* simulation (spec -> code): small and medium tables
 ConfigsSim == {Cfg(k, v, n, c, TRUE) : k \in {"log", "param"}, v \in {1, 2}, n \in {0, 1, 2, 3, 4, 7}, c \in BOOLEAN}
+WindowAll == 0..65535
+WindowBoundary == {0, 1, 253, 254, 255, 256, 257, 299}
 ConfigsProf == {Cfg("param", 2, 40, FALSE, TRUE)}
 ====
